@@ -93,7 +93,7 @@ pub fn weights_for(p: Prop) -> Vec<(u32, u32)> {
             bump(REMOVE_FROM_FILE, 10);
             bump(REMOVE_FILE, 5);
             bump(LOAD, 5);
-            bump(SET_FILENAME, 2);
+            bump(SET_FILENAME, 5);
             bump(DUPLICATE, 2);
             bump(MOVE, 8);
             bump(SET_VERSION, 0);
@@ -197,7 +197,7 @@ pub fn run_history(p: Prop, case: &HistCase, st: &mut Stats, known_open: &dyn Fn
         w.rescan();
         // --- open finding KF-C11-1: a load rejected in the merge phase leaves partial imports behind; for the
         // other history properties the model is in an undefined state then: the history ends
-        if p != Prop::C11 && o.code == op::LOAD && res.err.as_deref() == Some("InvalidFileMerge") && known_open("failed-op-changed-state:load:InvalidFileMerge") {
+        if p != Prop::C11 && o.code == op::LOAD && res.err.as_deref() == Some("InvalidFileMerge") && known_open("failed-op-changed-state:load:InvalidFileMerge:file-sets-of-existing-elements") {
             st.class("ended:failed-merge(KF-C11-1)");
             return Ok(());
         }
@@ -236,7 +236,26 @@ pub fn run_history(p: Prop, case: &HistCase, st: &mut Stats, known_open: &dyn Fn
                 let post = snapshot(&mut w, mi, false);
                 if let Some(d) = pre[mi].diff(&post) {
                     let kind = if res.is_load { format!("load:{}", res.err.clone().unwrap_or_default()) } else { format!("{}:{}", op::NAMES[o.code as usize], res.err.clone().unwrap_or_default()) };
-                    let sig = format!("failed-op-changed-state:{kind}");
+                    let mut sig = format!("failed-op-changed-state:{kind}");
+                    if kind == "load:InvalidFileMerge" {
+                        // the recorded finding KF-C11-1 is about WHAT a rejected merge leaves behind: the component is part of the signature
+                        let comp = if d.starts_with("file list") {
+                            "file-list"
+                        } else if d.starts_with("element tree") {
+                            "elements-remain-in-the-tree"
+                        } else if d.contains("file membership differs") {
+                            "file-sets-of-existing-elements"
+                        } else if d.starts_with("element #") {
+                            "content-of-existing-elements"
+                        } else if d.starts_with("identifiable_elements") || d.starts_with("get_element_by_path") {
+                            "path-index"
+                        } else if d.starts_with("referrers") || d.starts_with("check_references") {
+                            "reference-index"
+                        } else {
+                            "file-text"
+                        };
+                        sig = format!("{sig}:{comp}");
+                    }
                     let f = fail(p, &sig, format!("step {step} returned an error but model {mi} changed: {d}"), &w, case);
                     if known_open(&sig) {
                         // state is legitimately different now; report and stop this history
@@ -262,7 +281,12 @@ fn check_all(p: Prop, w: &mut World, case: &HistCase, step: usize, _st: &mut Sta
     for mi in 0..w.models.len() {
         let s = scan(w, mi);
         let r = match p {
-            Prop::C03 => inv_tree(w, mi, &s, true),
+            // the file-scoped iterators (with and without depth limit) belong to C03's statement as well: of the
+            // membership invariant only those two comparisons are C03's
+            Prop::C03 => inv_tree(w, mi, &s, true).and_then(|_| match inv_membership(w, mi, &s, false) {
+                Err((sig, msg)) if sig.starts_with("membership:file-dfs") => Err((sig.replace("membership:", "tree:"), msg)),
+                _ => Ok(()),
+            }),
             Prop::C04 => inv_paths(w, mi, &s),
             Prop::C05 => inv_refs(w, mi, &s),
             Prop::C10 => inv_membership(w, mi, &s, true),
